@@ -104,7 +104,7 @@ func runC17(r *ev.Run) {
 			switch c := rng.IntN(12); {
 			case c < 3: // Open
 				before := dirState(dir)
-				s, err := p.open(dir)
+				s, err := p.open(spellDir(rng, dir))
 				if owner != nil {
 					log = append(log, fmt.Sprintf("Open while owned -> err=%v", err != nil))
 					if err == nil {
@@ -175,7 +175,7 @@ func runC17(r *ev.Run) {
 				if owner != nil {
 					staleCloseWhileOwned++
 					// and the directory is still owned: a further Open must be refused
-					if s2, err := p.open(dir); err == nil {
+					if s2, err := p.open(spellDir(rng, dir)); err == nil {
 						rep("own.second-open-succeeds", "after a stale handle's second Close, Open succeeded although the directory is owned")
 						s2.Close()
 						return
@@ -259,7 +259,7 @@ func runC17(r *ev.Run) {
 					}
 					var oerr error
 					var s *comet.PersistentHybridIndex
-					ok := withFDLimit(1, func() { s, oerr = p.open(dir) })
+					ok := withFDLimit(1, func() { s, oerr = p.open(spellDir(rng, dir)) })
 					if !ok {
 						r.Inconclusive("setrlimit unavailable")
 						continue
@@ -283,7 +283,7 @@ func runC17(r *ev.Run) {
 				}
 				if owner == nil {
 					// the directory must still be openable
-					s, err := p.open(dir)
+					s, err := p.open(spellDir(rng, dir))
 					if err != nil {
 						rep("own.open-fails-after-failed-open", fmt.Sprintf("after a failed Open the next Open fails: %v", err))
 						return
